@@ -125,22 +125,32 @@ OUTSIDE["C13"] = "MEASURED LIMIT: RR::from_string (chomp combinators) is tractab
 
 # ---------------------------------------------------------------- C14
 _f14 = ["synth::gen::raw_name_from_str", "synth::gen::copy_raw_name_from_str"]
-for n, t, est in (("text_3_nozone", "quick", 30), ("text_3_zone", "quick", 40), ("text_4_nozone", "quick", 300)):
-    add(n, ["C14"], tier=t, timeout=1500, est=est, mem_gb=40, path="registry::h_c14::proofs::", funcs=_f14,
-        bound="raw_name_from_str on every byte string of length <= %s (all bytes and the length symbolic), %s" % (n.split("_")[1], "zone = \\x02zn\\x00" if "_zone" in n else "no zone"))
+add("text_l1", ["C14"], tier="quick", timeout=900, est=30, path="registry::h_c14::proofs::", funcs=_f14,
+    bound="raw_name_from_str on every 1-byte string")
+_pre = ["", "a", "a.", "a.b", ".", "ab", "a.b.", "a-", "_x.y", "1.2"]
+for i in range(10):
+    _q = i in (0, 2, 4, 6)
+    add("text_ls%d" % i, ["C14"], tier="quick" if _q else "thorough", timeout=900 if _q else 3600, est=60, mem_gb=24 if _q else 48, path="registry::h_c14::proofs::" if _q else "registry::h_c14_t::proofs::", funcs=_f14,
+        bound="raw_name_from_str on the concrete prefix %r followed by one symbolic byte (all 256 values), no zone" % _pre[i])
+for i in (2, 6):
+    add("text_ls%d_zone" % i, ["C14"], tier="quick", timeout=900, est=60, mem_gb=24, path="registry::h_c14::proofs::", funcs=_f14,
+        bound="raw_name_from_str on the concrete prefix %r followed by one symbolic byte (all 256 values), zone \\x02zn\\x00" % _pre[i])
+for n in ("text_l2", "text_l3"):
+    add(n, ["C14"], tier="thorough", timeout=5400, est=900, mem_gb=48, path="registry::h_c14_t::proofs::", funcs=_f14,
+        bound="raw_name_from_str on every byte string of length exactly %s (measured: out of memory at 40 GB; kept to report the limit)" % n[-1])
 for n in ("text_b_61_100", "text_b_62_100", "text_b_63_100", "text_b_64_100", "text_b_10_252", "text_b_10_253", "text_b_10_254", "text_b_10_255", "text_b_10_256"):
-    add(n, ["C14"], tier="quick", timeout=900, est=60, path="registry::h_c14::proofs::", funcs=_f14,
-        bound="boundary lengths: first label of %s bytes (first byte any LDH_ character), total wire length %s" % tuple(n.split("_")[2:4]))
+    add(n, ["C14"], tier="quick", timeout=900, est=60, fs=400, path="registry::h_c14::proofs::", funcs=_f14,
+        bound="boundary lengths (concrete text): first label of %s bytes, total wire length %s" % tuple(n.split("_")[2:4]))
 for n in ("text_readback_zone", "text_readback_dot"):
     add(n, ["C14"], tier="quick", timeout=900, est=200, path="registry::h_c14::proofs::", funcs=_f14 + ["TypedIterable::set_raw_name", "TypedIterable::name"], fs=300,
         bound="set_raw_name(raw_name_from_str('Ab.cD' %s)) on answer 0 of skeleton r_a_aaaa then name(): all payload symbolic, text concrete" % ("+ zone" if "zone" in n else "with trailing dot"))
-for n, est in (("text_4_zone", 400), ("text_5_nozone", 600), ("text_6_nozone", 900), ("text_6_zone", 1000), ("text_7_nozone", 2500)):
+for n, est in (("text_4_nozone", 400), ("text_4_zone", 400), ("text_5_nozone", 600), ("text_6_nozone", 900), ("text_6_zone", 1000), ("text_7_nozone", 2500)):
     add(n, ["C14"], tier="thorough", timeout=5400, est=est, mem_gb=48, path="registry::h_c14_t::proofs::", funcs=_f14,
         bound="raw_name_from_str on every byte string of length <= %s, %s" % (n.split("_")[1], "zone" if "_zone" in n else "no zone"))
 for n in ("text_b_10_250", "text_b_10_251", "text_b_62_253", "text_b_63_255"):
-    add(n, ["C14"], tier="thorough", timeout=900, est=60, path="registry::h_c14_t::proofs::", funcs=_f14,
+    add(n, ["C14"], tier="thorough", timeout=900, est=60, fs=400, path="registry::h_c14_t::proofs::", funcs=_f14,
         bound="boundary lengths: first label of %s bytes, total wire length %s" % tuple(n.split("_")[2:4]))
-OUTSIDE["C14"] = "texts longer than 4 (quick) / 7 (thorough) bytes with arbitrary content; boundary texts beyond the listed label/total lengths; read-back with symbolic text (raw_name_to_str branches per byte); zones other than the fixed one"
+OUTSIDE["C14"] = "MEASURED LIMIT: more than one symbolic byte in the text makes the slice copies of copy_raw_name_from_str symbolic-sized (2 symbolic bytes: 32 M SAT variables, out of memory); decided are: every 1-byte text, ten concrete prefixes x every last byte (with and without zone), concrete boundary lengths. texts longer than 4 (quick) / 6 (thorough) bytes with arbitrary content (symbolic-length variants text_N_* are thorough-only and may be undecided); boundary texts beyond the listed label/total lengths; read-back with symbolic text (raw_name_to_str branches per byte); zones other than the fixed one"
 
 # ---------------------------------------------------------------- generated skeleton families
 import json as _json, os as _os
